@@ -363,6 +363,11 @@ func (p *Program) knownPure(key string) bool {
 		"github.com/cockroachdb/pebble",
 		// snowflake id generator: returns an arbitrary int64 (no monotonicity is assumed)
 		"github.com/bwmarrin/snowflake",
+		// operating-system calls that never write the program's own heap objects (they copy
+		// out of the buffers they are given); (*File).Read and friends are NOT in this list
+		"os.ReadFile", "os.CreateTemp", "os.Remove", "os.Rename", "os.Open", "os.OpenFile", "os.Stat", "os.MkdirAll",
+		"os.(*File).Name", "os.(*File).Write", "os.(*File).Sync", "os.(*File).Close", "os.(*File).Stat",
+		"encoding/json.Marshal", "encoding/json.NewDecoder", "encoding/json.(*Decoder).DisallowUnknownFields", "bytes.NewReader", "bytes.NewBuffer",
 		"context.", "time.", "hash/crc32.", "hash/fnv.", "hash/maphash.", "math/rand"} {
 		if strings.HasPrefix(key, pre) {
 			return true
